@@ -147,6 +147,10 @@ func (e *Encoder) callCommon(instr ssa.Instruction, cm *ssa.CallCommon, res ssa.
 				if al, ok := v.X.(*ssa.Alloc); ok && v.Op == token.MUL {
 					dname = al.Comment
 				}
+				// a captured function variable
+				if fv, ok := v.X.(*ssa.FreeVar); ok && v.Op == token.MUL {
+					dname = fv.Name()
+				}
 				// a function held in a struct field (x.f(...)): named after the field
 				if fa, ok := v.X.(*ssa.FieldAddr); ok && v.Op == token.MUL {
 					if pt, ok := fa.X.Type().Underlying().(*types.Pointer); ok {
